@@ -132,8 +132,11 @@ def check_case(ctx, case, steps, msteps):
         if rec["db"] != prev:
             nchange += 1
         prev = rec["db"]
-        if cmd["op"] == "rmcache":
-            ctx.hist("rm cache")
+        if cmd["op"] in ("rmcache", "clearcache"):
+            ctx.hist("rm cache" if cmd["op"] == "rmcache" else "eups admin clearCache")
+            if rec.get("caches_left"):
+                ctx.fail("clear_cache_clears", sub, dict(impl_obs, caches_left=rec["caches_left"]), model_obs,
+                         note="cache files of the user left after eups admin clearCache: %s" % rec["caches_left"])
             continue
         ctx.hist("cmd=%s/%s" % (cmd["op"], rec["out"]))
         fl = cmd.get("flavor", "Linux")
